@@ -6,6 +6,7 @@ package main
 // is a pure function and is not performed here; see DESIGN.md §4.)
 
 import (
+	"strings"
 	"fmt"
 	"time"
 
@@ -26,6 +27,7 @@ type identity struct {
 // front proxy took the connection; the peer address must not matter for its identity.
 var proxyPeers = []string{"10.255.0.1", "10.255.0.2", "10.255.7.9", "172.16.0.4", "2001:db8:ffff::1"}
 var affReqN int
+var xffTails = []string{"", ", 10.0.0.1", ", 10.0.0.1, 10.0.0.2", ",10.0.0.9 ,  10.0.0.3,10.0.0.4", ", 2001:db8:ffff::2, 10.0.0.1", ", 10.0.0.2"}
 
 // specOf returns the request for an identity; header-named clients come in through varying peers.
 func specOf(id identity) reqSpec {
@@ -33,6 +35,11 @@ func specOf(id identity) reqSpec {
 	if sp.client == "10.255.0.1" && (sp.xff != "" || sp.xreal != "") {
 		affReqN++
 		sp.client = proxyPeers[(affReqN*7)%len(proxyPeers)]
+		// ... and through however many proxies happened to be on the way: each appends itself
+		// to X-Forwarded-For; the client is the first element whatever follows it
+		if sp.xff != "" && !strings.Contains(sp.xff, ",") {
+			sp.xff += xffTails[(affReqN*5)%len(xffTails)]
+		}
 	}
 	return sp
 }
@@ -103,7 +110,7 @@ func runLBAff(x *X) {
 	addCfg := func() config.BackendConfig {
 		hostN++
 		name := fmt.Sprintf("b%d", hostN)
-		host := fmt.Sprintf("10.3.0.%d:80", hostN)
+		host := x.BackendHost(3, hostN)
 		net.add(name, host, "")
 		// (weights play no part in hash affinity -- which is exactly why they vary here)
 		return config.BackendConfig{Name: name, Address: "http://" + host, Weight: 1 + c.Intn(5, "weight")}
